@@ -1,3 +1,44 @@
+import PhyModel.Proofs.ASMC5
+import PhyModel.Proofs.Gibbs
 import PhyModel.Model.SMC
+/-! # C01 — one particle-Gibbs update of the whole tree leaves the posterior invariant
+
+Two theorems carry the argument (DESIGN.md section 6, C01):
+
+* `csmc_invariant` — conditional SMC with the retained path in slot 0, `m + 1` particles (any `m`),
+  `T` steps (any `T`), adaptive resampling by any rule that is symmetric in the slots, weights
+  carried between resampling times, final draw proportional to the weights: it leaves the level-`T`
+  target invariant, exactly.  Stated for an arbitrary finite state space, proposal `q`, targets `g`,
+  under the validity conditions `ASMC.Valid` (normalised proposals, unique parents, support
+  conditions) which are what C08 establishes for PhyClone's three proposals.
+* `aux_mixture_invariant` — drawing the data order σ from `u x ·` and then applying a kernel that
+  leaves `π·u(·,σ)` invariant leaves `π` invariant; with `u x σ = 1/count x` on the compatible orders
+  (C09) this is how `ParticleGibbsTreeSampler.sample_tree` composes the permutation draw with the
+  conditional SMC sweep.
+
+The executable model `SMC.pgStep` (which the correspondence check compares, transition row by
+transition row, with the exact kernel of the real `sample_tree`) is an instance of this abstract
+scheme; the formal instantiation is the open obligation below. -/
+
 namespace PhyModel.Props.C01
+open Finset BigOperators
+
+/-- **Conditional SMC leaves the unnormalised target invariant**, for every number of particles,
+every number of steps, every symmetric adaptive resampling rule and every `u > 0` (the uniform
+weight given after resampling). -/
+theorem csmc_invariant {X : Type} [Fintype X] [DecidableEq X] {m : ℕ}
+    (sp : ASMC.Spec (m := m) X) (u : ℚ) (hv : ASMC.Valid sp) (hu : 0 < u) (T : ℕ) (y : X) :
+    ∑ x, sp.g T x * ASMC.kernel sp u T x y = sp.g T y :=
+  ASMC.csmc_invariant hv hu T y
+
+/-- **Auxiliary data order.** -/
+theorem aux_mixture_invariant {X Sg : Type} [Fintype X] [Fintype Sg] [DecidableEq X]
+    (π : X → ℚ) (u : X → Sg → ℚ) (P : Sg → X → X → ℚ)
+    (hu : ∀ x, π x ≠ 0 → ∑ s, u x s = 1)
+    (hP : ∀ s y, ∑ x, (π x * u x s) * P s x y = π y * u y s) (y : X) :
+    ∑ x, π x * (∑ s, u x s * P s x y) = π y :=
+  Moves.aux_mixture_invariant π u P hu hP y
+
+-- OBLIGATION-OPEN pg_invariant: instantiate `ASMC.Spec` with PhyClone's partial trees along a fixed order (state = `T`, `q` = `Proposal.table`, `g t` = pMarg·pdf for t < T and pOne·pdf at T, `parent` = removal of the last-placed data point), discharge `ASMC.Valid` from the C08 theorems, identify `SMC.csmc` with `ASMC.kernel`, and conclude `∑ x, pOne x * P(SMC.pgStep x = y) = pOne y`; until then the tie between the abstract theorem and `SMC.pgStep` is the exact row-by-row correspondence with the real code plus the exact `πK = π` oracle on every enumerated configuration.
+
 end PhyModel.Props.C01
